@@ -177,14 +177,22 @@ def run(tier, seed):
              "> 10^4 random schedules; distinct_nontrivial = traces satisfying order_ok in Coq; evaluations = scheduled runs",
         trusted_base=lc.TRUSTED + ["scheduler of hook H2 implements ev_strictly_enabled of Conc/RwLock.v (deadlock replays are re-checked in Coq with stuck_after)"],
         checker_cmd="make -C coq Properties/C15.vo && Print Assumptions per theorem && Eval vm_compute verdict_n / stuck_after on the logged traces",
-        assumptions=["[P] the order criterion is proved sound for ALL interleavings / thread counts / trace lengths; its premise is established for the OBSERVED "
+        assumptions=["[U for the footprint classes] Conc/Footprint.v defines the lock trace of 19 operation classes as a FUNCTION of operation and heap-model world; "
+                     "C15_no_deadlock_footprint_classes holds for EVERY Core world, any number of threads and call sequences of the 18 classes with order_class = true "
+                     "(all but path, whose failing states are characterised exactly by C15_footprint_path_characterised); the functions are tied to the implementation "
+                     "on every run (footprint_instances_tied: event-by-event equality with the hook traces); footprints are taken in one world (the classes never "
+                     "change parent links / element lists / file sets); classes NOT in: create_*, remove_sub_element, set_item_name, move, copy, add_to_file, "
+                     "remove_from_file, create_file, load, sort, file serialize (spec-dependent insert ranges, fresh locks, model<->element inversion)",
+                     "[P] the order criterion is proved sound for ALL interleavings / thread counts / trace lengths; its premise is established for the OBSERVED "
                      "traces of the enumerated operation instances and shapes, not for all states of all models",
                      "[P] parking_lot's algorithm, real 10 ms timeouts (modelled: a timed try fails iff the lock is unavailable at that point) and fairness are modelled, not verified",
                      "rank: element = 10 + depth before the operation (new elements above all old ones in creation order), then models, then files",
                      "the operation classes listed under classes_with_against_order_edges are NOT claimed deadlock-free: their edges are the recorded findings "
                      "(upward blocking reads in path_unchecked / move / copy, model lock held while locking elements, recursive read in Ord::cmp)"],
         extra={"theorem_kinds": {"C15_order_sound": "U", "C15_order_progress": "U", "C15_executions_finite": "U", "C15_maximal_execution_finishes": "U",
-                                 "C15_replay_sound": "U", "C15_search_sound": "U", "C15_recursive_read_refuted": "witness", "C15_abba_refuted": "witness"}})
+                                 "C15_replay_sound": "U", "C15_search_sound": "U", "C15_recursive_read_refuted": "witness", "C15_abba_refuted": "witness",
+                                 "C15_no_deadlock_footprint_classes": "U (all Core worlds)", "C15_footprint_path_characterised": "U (all Core worlds)",
+                                 "C15_footprint_rank_exists": "U", "C15_path_upward_blocking_refuted": "witness"}})
 
 
 def replay(path):
